@@ -49,6 +49,8 @@ def drop(d):
 def verify(src, sid):
     meta = json.load(open(os.path.join(src, "meta.json")))
     demo_cmd = meta.get("demo_cmd", "go test -vet=off -count=1 -run TestSeededDemo .")
+    demo_cmd = re.split(r"\s+\(", demo_cmd)[0].strip()  # agents sometimes append a remark in parentheses
+    meta["demo_cmd"] = demo_cmd
     d = worktree("verify-" + sid)
     res = {"id": sid, "steps": {}}
     try:
